@@ -14,13 +14,18 @@
 //                 rejected unless every comparison of instants made by the code (elapsed budget,
 //                 deadline, per-attempt timeout, stop / cancel against the end of a wait or an attempt)
 //                 is at least vMargin away from equality, and every wait is at least vMinDelay
-//                 (this keeps the generator away from the suspected S4 race of initial_interval = 0).
+//                 (ties of a timer with the stop channel are the business of family F3).
 //                 The exporter function sleeps until the ABSOLUTE ideal end of its attempt, so the
 //                 scheduling jitter does not accumulate.  A run whose timers woke up later than
 //                 vJitter is repeated (up to vRetries times) and otherwise skipped (STAT timing_skipped).
 //   F2 "random" : RandomizationFactor > 0; no limit is near; shutdown / cancellation are triggered
 //                 from inside attempt k (event driven); the model is run with the draws that
 //                 reproduce the logged delays and the instants are reconstructed from them.
+//   F3 "S4 regression": initial_interval = 0 and Shutdown completed inside attempt 0 (formerly finding S4,
+//                 repaired in /repo by fix 9628cae8b): the timer of the zero-length wait and the closed stop
+//                 channel are ready together; whichever branch the select takes, NO attempt may start after
+//                 Shutdown has returned (oracle attempt-after-shutdown, no exemption) and Send must return the
+//                 shutdown-classified error.  Compared exactly with the model like every other case.
 // Plus kind-1 cases: BackOffConfig.Validate on generated configurations (tie of the hand translator).
 //
 // Direct oracle (independent of the Coq model), on the real call log: see vOracle.
@@ -34,6 +39,7 @@ import (
 	"strconv"
 	"strings"
 	"sync"
+	"sync/atomic"
 	"testing"
 	"time"
 
@@ -55,7 +61,7 @@ const (
 	vMs       = int64(time.Millisecond)
 	vMargin   = 60 * vMs // distance from equality of every inequality the code evaluates (F1)
 	vJitter   = 25 * vMs // a timer that wakes up later than this invalidates the run (repeated)
-	vMinDelay = 15 * vMs // every wait of a generated scenario is at least this long (S4 exclusion)
+	vMinDelay = 15 * vMs // every wait of a generated scenario is at least this long (F1 stays away from timer ties)
 	vRetries  = 4
 	vMaxTotal = 1600 * vMs
 )
@@ -371,12 +377,14 @@ func vGenF1(r *vRand) (*vScenario, *vIdeal) {
 
 func vGenF2(r *vRand) *vScenario {
 	sc := &vScenario{family: 2, enabled: true, deadline: -1, cancel: -1, stop: -1, evStop: -1, evCancel: -1}
-	sc.init = vPickMs(r, 6, 10, 16, 24)
-	rf := [][2]int64{{1, 2}, {1, 4}, {7, 8}, {3, 4}, {1, 8}}[r.Intn(5)]
+	// every delay stays >= 8 ms (initial >= 16 ms, factor <= 1/2, multiplier >= 1 or 0): a wait whose stop
+	// channel is already closed must not have a timer that can expire during a scheduling hiccup
+	sc.init = vPickMs(r, 16, 24, 32)
+	rf := [][2]int64{{1, 2}, {1, 4}, {3, 8}, {1, 8}, {1, 2}}[r.Intn(5)]
 	sc.rfN, sc.rfD = rf[0], rf[1]
-	mu := vMults[r.Intn(len(vMults))]
+	mu := [][2]int64{{1, 1}, {3, 2}, {2, 1}, {0, 1}, {5, 4}, {3, 1}}[r.Intn(6)]
 	sc.mN, sc.mD = mu[0], mu[1]
-	sc.maxint = vPickMs(r, 8, 20, 40, 60)
+	sc.maxint = vPickMs(r, 16, 20, 40, 60)
 	if r.Intn(3) == 0 {
 		sc.maxel = int64(time.Hour)
 	}
@@ -405,6 +413,32 @@ func vGenF2(r *vRand) *vScenario {
 	return sc
 }
 
+// F3: regression stream for the repaired S4 (initial_interval 0, shutdown completed inside attempt 0)
+func vGenF3(r *vRand) *vScenario {
+	sc := &vScenario{family: 3, enabled: true, deadline: -1, cancel: -1, stop: -1, evStop: 0, evCancel: -1}
+	rf := [][2]int64{{0, 1}, {1, 2}, {1, 1}}[r.Intn(3)]
+	sc.rfN, sc.rfD = rf[0], rf[1]
+	mu := vMults[r.Intn(len(vMults))]
+	sc.mN, sc.mD = mu[0], mu[1]
+	sc.maxint = vPickMs(r, 0, 20, 30000)
+	sc.sig = r.Intn(3)
+	sc.payload = vGenPayload(r)
+	cur := sc.payload
+	for i, n := 0, 1+r.Intn(6); i < n; i++ {
+		a := vAttempt{dur: 1 * vMs}
+		switch r.Intn(4) {
+		case 0:
+			cur = vSubset(r, cur)
+			a.layers = []vLayer{{code: 2, sig: sc.sig, rem: cur}}
+		case 1:
+			a.layers = []vLayer{{code: 4}}
+		}
+		sc.script = append(sc.script, a)
+	}
+	sc.script = append(sc.script, vAttempt{dur: 1 * vMs, ok: true})
+	return sc
+}
+
 // ---- running a scenario on the real implementation -------------------------------------------------------
 type vCall struct {
 	start, end int64 // ns since t0
@@ -417,6 +451,7 @@ type vCall struct {
 	ctxErr     bool
 	offSched   bool
 	lateWake   int64
+	afterStop  bool // Shutdown had already RETURNED when this call started
 }
 
 type vObs struct {
@@ -573,12 +608,14 @@ func vRunOnce(sc *vScenario, id *vIdeal) (*vObs, error) {
 	var be *internal.BaseExporter
 	var stopOnce sync.Once
 	var mu sync.Mutex
+	var stopDone atomic.Bool
 	doStop := func() {
 		stopOnce.Do(func() {
 			mu.Lock()
 			obs.stopReal = int64(time.Since(t0))
 			mu.Unlock()
 			_ = be.Shutdown(context.Background())
+			stopDone.Store(true)
 		})
 	}
 	var cancel context.CancelFunc
@@ -593,7 +630,7 @@ func vRunOnce(sc *vScenario, id *vIdeal) (*vObs, error) {
 
 	pusher := func(ctx context.Context, req Request) error {
 		k := len(obs.calls)
-		c := vCall{start: int64(time.Since(t0)), payload: vIDsOf(req), dlSeen: -1}
+		c := vCall{start: int64(time.Since(t0)), payload: vIDsOf(req), dlSeen: -1, afterStop: stopDone.Load()}
 		if dl, has := ctx.Deadline(); has {
 			c.dlSeen = int64(dl.Sub(t0))
 			c.dlClass = 2
@@ -816,8 +853,13 @@ func vOracle(out *vOut, term string, sc *vScenario, obs *vObs) {
 			if sc.deadline >= 0 && c.start > sc.deadline+slack {
 				fail("retry-beyond-deadline", fmt.Sprintf("attempt %d started at %d ns, deadline %d ns", k, c.start, sc.deadline))
 			}
-			if obs.stopReal >= 0 && c.start > obs.stopReal+slack {
-				fail("attempt-after-shutdown", fmt.Sprintf("attempt %d started at %d ns, Shutdown at %d ns", k, c.start, obs.stopReal))
+			if c.afterStop {
+				db := int64(-1)
+				if k-1 < len(obs.delays) {
+					db = obs.delays[k-1]
+				}
+				fail("attempt-after-shutdown", fmt.Sprintf("attempt %d started after Shutdown had returned (Shutdown at %d ns, attempt at %d ns) initial_interval=%dns delay_before_attempt=%dns",
+					k, obs.stopReal, c.start, sc.init, db))
 			}
 			if obs.cancelReal >= 0 && c.start > obs.cancelReal+slack {
 				fail("attempt-after-cancel", fmt.Sprintf("attempt %d started at %d ns, cancel at %d ns", k, c.start, obs.cancelReal))
@@ -920,8 +962,9 @@ func vScriptTerm(sc *vScenario) string {
 }
 
 func vCaseTerm(sc *vScenario, obs *vObs, cancelAt, stopAt int64) string {
+	tie := int64(0)
 	hdr := []int64{0, vB(sc.enabled), sc.init, sc.rfN, sc.rfD, sc.mN, sc.mD, sc.maxint, sc.maxel, sc.timeout,
-		int64(sc.sig), sc.deadline, cancelAt, stopAt, 0}
+		int64(sc.sig), sc.deadline, cancelAt, stopAt, tie}
 	atts := make([]string, len(obs.calls))
 	for i, c := range obs.calls {
 		atts[i] = vPair(vZs(c.payload), vZ(int64(c.dlClass)))
@@ -933,7 +976,7 @@ func vCaseTerm(sc *vScenario, obs *vObs, cancelAt, stopAt int64) string {
 // F2: the instants of the event-driven stop / cancel, reconstructed from the logged delays
 func vEventInstants(sc *vScenario, obs *vObs) (cancelAt, stopAt int64) {
 	cancelAt, stopAt = -1, -1
-	startOf := func(k int) int64 {
+	startOf := func(k int) int64 { // an instant inside attempt k
 		if k >= len(obs.calls) {
 			return -1
 		}
@@ -945,7 +988,7 @@ func vEventInstants(sc *vScenario, obs *vObs) (cancelAt, stopAt int64) {
 			}
 			t += d
 		}
-		return t
+		return t + sc.script[k].dur/2 // strictly inside attempt k
 	}
 	if sc.evStop >= 0 {
 		stopAt = startOf(sc.evStop)
@@ -970,14 +1013,17 @@ func TestVerifC05(t *testing.T) {
 	defer out.Close()
 	rng := vNewRand(5)
 
-	nF1, nF2, nVal := vBudget(360, 8), vBudget(120, 8), vBudget(250, 8)
-	jobs := make([]*vJob, 0, nF1+nF2)
+	nF1, nF2, nF3, nVal := vBudget(480, 8), vBudget(160, 8), vBudget(60, 8), vBudget(300, 8)
+	jobs := make([]*vJob, 0, nF1+nF2+nF3)
 	for i := 0; i < nF1; i++ {
 		sc, id := vGenF1(rng)
 		jobs = append(jobs, &vJob{sc: sc, id: id})
 	}
 	for i := 0; i < nF2; i++ {
 		jobs = append(jobs, &vJob{sc: vGenF2(rng)})
+	}
+	for i := 0; i < nF3; i++ {
+		jobs = append(jobs, &vJob{sc: vGenF3(rng)})
 	}
 	// run 16-wide; results are emitted in generation order
 	var wg sync.WaitGroup
@@ -1017,7 +1063,7 @@ func TestVerifC05(t *testing.T) {
 			continue
 		}
 		cancelAt, stopAt := sc.cancel, sc.stop
-		if sc.family == 2 {
+		if sc.family != 1 {
 			cancelAt, stopAt = vEventInstants(sc, obs)
 		}
 		term := vCaseTerm(sc, obs, cancelAt, stopAt)
@@ -1087,11 +1133,15 @@ func TestVerifC05(t *testing.T) {
 		} else {
 			out.Stat("validate_rejected", 1)
 		}
-		// direct oracle: an accepted, enabled configuration has the documented shape
-		if verr == nil && en && (cfg.InitialInterval < 0 || cfg.MaxInterval < 0 || cfg.MaxElapsedTime < 0 ||
+		// direct oracle: an enabled configuration is accepted iff it has the documented shape
+		docBad := cfg.InitialInterval < 0 || cfg.MaxInterval < 0 || cfg.MaxElapsedTime < 0 ||
 			cfg.RandomizationFactor < 0 || cfg.RandomizationFactor > 1 || cfg.Multiplier < 0 ||
-			(cfg.MaxElapsedTime > 0 && (cfg.MaxElapsedTime < cfg.InitialInterval || cfg.MaxElapsedTime < cfg.MaxInterval))) {
+			(cfg.MaxElapsedTime > 0 && (cfg.MaxElapsedTime < cfg.InitialInterval || cfg.MaxElapsedTime < cfg.MaxInterval))
+		if verr == nil && en && docBad {
 			out.Oracle("validate-accepts-bad-config", term, fmt.Sprintf("%+v", cfg))
+		}
+		if verr != nil && (!en || !docBad) {
+			out.Oracle("validate-rejects-good-config", term, fmt.Sprintf("%+v: %v", cfg, verr))
 		}
 	}
 }
